@@ -1458,22 +1458,31 @@ func dRandomScenarios(fam string, n int) [][]vt.M {
 			for j := 0; j < n; j++ {
 				p, c := 1+rng.Intn(3), 1+rng.Intn(2)
 				switch x := rng.Intn(20); {
-				case x < 8:
+				case x < 7:
 					sc = append(sc, dCall("add", p, c, "none"))
-				case x < 12:
+				case x < 10:
 					sc = append(sc, dCall("del", p, c, "none"))
-				case x < 13:
+				case x < 11:
 					sc = append(sc, dCall("get", p, c, "none"))
-				case x < 15:
+				case x < 13:
 					sc = append(sc, vt.M{"a": "restart"})
-				case x < 18:
+				case x < 16:
 					pts := []string{"getpod", "put_begin", "put_end", "del_begin", "del_end"}
 					k := []string{"add", "add", "del"}[rng.Intn(3)]
 					sc = append(sc, vt.M{"a": "crashat", "point": pts[rng.Intn(len(pts))], "n": 1}, dCall(k, p, c, "none"))
-				case x < 19:
+				case x < 17:
 					sc = append(sc, vt.M{"a": "detach", "e": 2}, vt.M{"a": "restart"})
-				default:
+				case x < 18:
 					sc = append(sc, dCall("add", p, c, "put"), dCall("add", 1+p%3, c, "none"), vt.M{"a": "open", "p": 0})
+				default:
+					// a DEL sits between the pool release and the record delete while another pod asks; then the daemon is killed
+					q := 1 + p%3
+					sc = append(sc, dCall("add", p, c, "none"), dCall("del", p, c, "del"), dCall("add", q, c, "none"))
+					if rng.Intn(2) == 0 {
+						sc = append(sc, vt.M{"a": "kill"})
+					} else {
+						sc = append(sc, vt.M{"a": "open", "p": 0})
+					}
 				}
 			}
 			// after the history: every pod asks again (same address for acknowledged pods, no address twice)
